@@ -3,7 +3,7 @@ import fractions
 import z3
 
 from .source import EngineError
-from .vals import (Sym, Obj, Opaque, MsgVal, is_sym, numeric_kind, to_bool_term, to_int_term,
+from .vals import (Sym, Obj, Opaque, MsgVal, FSpec, is_sym, numeric_kind, to_bool_term, to_int_term,
                    to_real_term, to_str_term)
 
 
@@ -96,6 +96,10 @@ def _is_strish(v):
 def eq(a, b):
     """object-language == for values whose equality is decidable without user __eq__ (those are
     handled by the interpreter before calling here). Returns host bool or Sym(bool)."""
+    if isinstance(a, FSpec) or isinstance(b, FSpec):
+        if isinstance(a, FSpec) and isinstance(b, FSpec):
+            return a.kind == b.kind and a.kind != "nan"
+        return False
     if a is b and not isinstance(a, float):
         return True
     sa, sb = is_sym(a), is_sym(b)
@@ -150,6 +154,18 @@ def compare(op, a, b):
         return eq(a, b)
     if op == "!=":
         return not_(eq(a, b))
+    if isinstance(a, FSpec) or isinstance(b, FSpec):
+        if not (numeric_kind(a) or isinstance(a, FSpec)) or not (numeric_kind(b) or isinstance(b, FSpec)):
+            raise TypeError(f"'{op}' not supported between {a!r} and {b!r}")
+        ka = a.kind if isinstance(a, FSpec) else "fin"
+        kb = b.kind if isinstance(b, FSpec) else "fin"
+        if "nan" in (ka, kb):
+            return False
+        rank = {"-inf": 0, "fin": 1, "inf": 2}
+        if ka == kb:          # both +inf or both -inf
+            return op in ("<=", ">=")
+        lt = rank[ka] < rank[kb]
+        return lt if op in ("<", "<=") else not lt
     if not (is_sym(a) or is_sym(b)):
         try:
             return {"<": a < b, "<=": a <= b, ">": a > b, ">=": a >= b}[op]
@@ -189,6 +205,10 @@ def unop(op, a):
 
 def binop(op, a, b):
     """arithmetic / string concatenation without exceptional cases (callers handle ZeroDivision)"""
+    if isinstance(a, FSpec) or isinstance(b, FSpec):
+        if op == "%" and isinstance(a, FSpec) and numeric_kind(b):
+            return FSpec("nan", a.pytype)
+        raise EngineError(f"arithmetic {op} on non-finite float")
     if not (is_sym(a) or is_sym(b)):
         if op == "+":
             return a + b
@@ -225,6 +245,9 @@ def binop(op, a, b):
                 q = z3.If(y > 0, x / y, (-x) / (-y))
                 return mk(x - y * q)
         x, y = to_real_term(a), to_real_term(b)
+        if op in ("%", "//") and not is_sym(b) and b > 0:
+            q = z3.ToReal(z3.ToInt(x / y))      # floor for a positive divisor
+            return mk(q) if op == "//" else mk(x - y * q)
         if op == "+":
             return mk(x + y)
         if op == "-":
